@@ -184,7 +184,7 @@ func MarshalValue(ctx Ctx, value reflect.Value, cont Proc) Proc {
 				if ctx.pointerDepth == 1000 {
 					ctx.detectCycleEnabled = true
 				}
-				if ctx.detectCycleEnabled {
+				if ctx.detectCycleEnabled && value.Kind() == reflect.Ptr {
 					ptr := value.Pointer()
 					for _, p := range ctx.visitedPointers {
 						if p == ptr {
